@@ -260,6 +260,13 @@ class VEntryView(VObj):
         self.lst, self.idx = lst, zint(idx)
         lst.views.add(self)
 
+    def py_is(self, interp, a, b):
+        """two references into the same entry list are the same object exactly when they stand at the same position (the
+        elements of the list are pairwise distinct objects: assumption 7)"""
+        if isinstance(a, VEntryView) and isinstance(b, VEntryView) and a.lst is not None and a.lst is b.lst:
+            return eq(a.idx, b.idx)
+        return None
+
     def on_delete(self, interp, i):
         if self.lst is None:
             return
@@ -517,11 +524,21 @@ class VHandle:
         def tell(interp, a, k):
             self._check_open()
             return self._use_pos()
-        table = dict(seek=seek, read=read, write=write, truncate=truncate, flush=flush, close=close, tell=tell)
+        def q_writable(interp, a, k):
+            self._check_open()
+            return bool(self.writable)
+
+        def q_readable(interp, a, k):
+            self._check_open()
+            return True
+        table = dict(seek=seek, read=read, write=write, truncate=truncate, flush=flush, close=close, tell=tell, writable=q_writable, readable=q_readable,
+                     seekable=q_readable)
         if name in table:
             return VBuiltin("file." + name, table[name])
         if name == "closed":
             return self.closed
+        if name == "mode":
+            return "r+b" if self.writable else "rb"
         if name == "__enter__":
             return VBuiltin("file.__enter__", lambda interp, a, k: self)
         if name == "__exit__":
@@ -634,20 +651,21 @@ class VBlockAbs:
         self.name = name
         self.type = z3.Const(f"{name}.type", I) if type_term is None else type_term
         self.fmt = z3.Const(f"{name}.format", I)
+        self.fmt_is_enum = z3.Const(f"{name}.format_is_an_enum_member", B)     # a caller may have stored a bare int there
         self.nb = z3.Const(f"{name}.nBytes", I)
         self.enc_ok = z3.Const(f"{name}.encodable", B)
         self.cd = VDate(z3.Const(f"{name}.cdate", I), z3.Const(f"{name}.cfrac", I))
         self.md = VDate(z3.Const(f"{name}.mdate", I), z3.Const(f"{name}.mfrac", I))
         pf = z3.Function(f"{name}.byte", I, I)
         self.payload = lambda k: pf(zint(k))
-        ctx.assume(And(self.type >= 1, self.type <= 16, self.nb >= 0, self.fmt >= 0, self.fmt < 2**31,
-                       self.cd.secs >= 0, self.cd.secs < 2**31, self.md.secs >= 0, self.md.secs < 2**31))
+        # the dates of the block are whatever the caller set: an entry carrying one outside the 32-bit range cannot be encoded
+        ctx.assume(And(self.type >= 1, self.type <= 16, self.nb >= 0, self.fmt >= 0, self.fmt < 2**31))
 
     def py_getattr(self, interp, name):
         if name == "type":
             return VEnum(_blocktype(interp), self.type)
         if name == "format":
-            return VFormat(self.fmt)
+            return VFormat(self.fmt, self.fmt_is_enum)
         if name == "nBytes":
             return self.nb
         if name == "creation_date":
@@ -668,11 +686,13 @@ class VBlockAbs:
 
 
 class VFormat:
-    def __init__(self, v):
-        self.v = v
+    def __init__(self, v, is_enum=True):
+        self.v, self.is_enum = v, is_enum
 
     def py_getattr(self, interp, name):
         if name == "value":
+            if self.is_enum is not True and not interp.ctx.branch(self.is_enum, "format-is-an-enum-member"):
+                interp.raise_("AttributeError", "'int' object has no attribute 'value'")
             return self.v
         return NOATTR
 
@@ -682,6 +702,11 @@ class VDecoded:
 
     def __init__(self, cls, pos, fmt, file_snapshot):
         self.cls, self.pos, self.fmt, self.file = cls, pos, fmt, file_snapshot
+
+    def py_equals(self, interp, a, b):
+        """comparing decoded blocks: some boolean (their content is abstract here); block objects hold no file handle,
+        so the comparison has no effect on any file (C14 / C18: block operations are pure)"""
+        return interp.ctx.fresh_const("decoded_blocks_equal", B)
 
 
 def c_block_build(interp, fn, args, kw):
@@ -753,6 +778,6 @@ def valid_entries_formulas(tag, N, M, quant=True, fresh=None):
     else:
         i, c = fresh("slot"), fresh("chr")
         FA = lambda vs, body: body
-    return [(f"{tag}.entries_encodable.comment_length_and_dates", FA([i], Implies(rng(0, i, N), And(M.cm_len(i) >= 0, M.cm_len(i) <= 255, *[And(M.ints[d](i) >= 0, M.ints[d](i) < 2**31) for d in ("cdate", "mdate", "adate")],
+    return [(f"{tag}.entries_encodable.comment_length_and_dates", FA([i], Implies(rng(0, i, N), And(M.cm_len(i) >= 0, M.cm_len(i) <= 255, *[And(M.ints[d](i) >= -2**31, M.ints[d](i) < 2**31) for d in ("cdate", "mdate", "adate")],
                                                                                                 M.ints["format"](i) >= 0, M.ints["format"](i) < 2**31)))),
             (f"{tag}.entries_encodable.comment_characters", FA([i, c], Implies(And(rng(0, i, N), rng(0, c, M.cm_len(i))), And(npmodel.cp_enc_ok(M.cm_chr(i, c)), M.cm_chr(i, c) != 0))))]
